@@ -772,7 +772,8 @@ def detrend_1d(arr: np.ndarray) -> np.ndarray:
 
     x_sum = m * (m - 1) / 2
     y_sum = 0.0
-    x_sq_sum = m * (m - 1) * (2 * m - 1) / 6
+    # in floating point: the integer product overflows int64 for m > ~1.6e6
+    x_sq_sum = m * (m - 1.0) * (2.0 * m - 1.0) / 6
     x_y_sum = 0.0
 
     for i in range(m):
